@@ -6,7 +6,8 @@ import ast, os, sys, json, multiprocessing as mp
 from .core import Tree, REPO, AnalysisError
 from .selftest import swap_if_else
 
-ALL_KINDS = ["rename", "swapif", "log", "augassign", "swapeq", "range0", "temp", "swapand", "elsereturn", "noop"]
+ALL_KINDS = ["rename", "swapif", "log", "augassign", "swapeq", "range0", "temp", "swapand", "elsereturn", "noop", "cmpflip", "noteq", "nestif", "guardcont"]
+EXTRA_KINDS = ["nameconst", "lenzero", "ifexp", "tupleassign"]  # hand tool only until silent
 KINDS = list(ALL_KINDS)
 def functions(mod):
     for n in ast.walk(mod):
@@ -84,7 +85,105 @@ def gen_variants(files=None, kinds=None):
                     if isinstance(n, ast.AugAssign) and isinstance(n.target, (ast.Name, ast.Attribute)):
                         out.append((m.relpath, "augassign", fi, k))
                         k += 1
+            if "cmpflip" in KINDS:
+                k = 0
+                for n in ast.walk(fn):
+                    if isinstance(n, ast.Compare) and len(n.ops) == 1 and isinstance(n.ops[0], (ast.Lt, ast.LtE, ast.Gt, ast.GtE)):
+                        out.append((m.relpath, "cmpflip", fi, k))
+                        k += 1
+            if "noteq" in KINDS:
+                k = 0
+                for n in ast.walk(fn):
+                    if isinstance(n, ast.Compare) and len(n.ops) == 1 and isinstance(n.ops[0], ast.NotEq):
+                        out.append((m.relpath, "noteq", fi, k))
+                        k += 1
+            if "nestif" in KINDS:
+                k = 0
+                for n in ast.walk(fn):
+                    if _nestable(n) or _splittable(n):
+                        out.append((m.relpath, "nestif", fi, k))
+                        k += 1
+            if "guardcont" in KINDS:
+                k = 0
+                for n in ast.walk(fn):
+                    if isinstance(n, (ast.For, ast.While)) and n.body and isinstance(n.body[-1], ast.If) and not n.body[-1].orelse and not n.orelse:
+                        out.append((m.relpath, "guardcont", fi, k))
+                        k += 1
+            if "nameconst" in KINDS:
+                k = 0
+                for n in ast.walk(fn):
+                    if _nameable(n):
+                        out.append((m.relpath, "nameconst", fi, k))
+                        k += 1
+            if "lenzero" in KINDS:
+                k = 0
+                for n in ast.walk(fn):
+                    if isinstance(n, (ast.If, ast.While)) and _lenzero(n.test) is not None:
+                        out.append((m.relpath, "lenzero", fi, k))
+                        k += 1
+            if "ifexp" in KINDS:
+                k = 0
+                for n in ast.walk(fn):
+                    if _ifexp_able(n):
+                        out.append((m.relpath, "ifexp", fi, k))
+                        k += 1
+            if "tupleassign" in KINDS:
+                k = 0
+                for p in ast.walk(fn):
+                    for fld in ("body", "orelse", "finalbody"):
+                        lst = getattr(p, fld, None)
+                        if isinstance(lst, list):
+                            for i in range(len(lst) - 1):
+                                if _tuple_able(lst[i], lst[i + 1]):
+                                    out.append((m.relpath, "tupleassign", fi, k))
+                                    k += 1
     return out
+
+
+def _nameable(n):
+    return isinstance(n, ast.Constant) and ((isinstance(n.value, int) and not isinstance(n.value, bool) and n.value > 2) or (isinstance(n.value, bytes) and len(n.value) >= 1))
+
+
+def _lenzero(t):
+    """`len(E) == 0` -> ('not', E); `len(E) != 0` / `len(E) > 0` -> ('pos', E)"""
+    if isinstance(t, ast.Compare) and len(t.ops) == 1 and isinstance(t.left, ast.Call) and isinstance(t.left.func, ast.Name) and t.left.func.id == "len" \
+            and len(t.left.args) == 1 and isinstance(t.comparators[0], ast.Constant) and t.comparators[0].value == 0:
+        if isinstance(t.ops[0], ast.Eq):
+            return ("not", t.left.args[0])
+        if isinstance(t.ops[0], (ast.NotEq, ast.Gt)):
+            return ("pos", t.left.args[0])
+    return None
+
+
+def _ifexp_able(n):
+    return isinstance(n, ast.If) and len(n.body) == 1 and len(n.orelse) == 1 and isinstance(n.body[0], ast.Assign) and isinstance(n.orelse[0], ast.Assign) \
+        and len(n.body[0].targets) == 1 and len(n.orelse[0].targets) == 1 and ast.dump(n.body[0].targets[0]) == ast.dump(n.orelse[0].targets[0]) \
+        and isinstance(n.body[0].targets[0], (ast.Name, ast.Attribute))
+
+
+def _tuple_able(a, b):
+    if not (isinstance(a, ast.Assign) and isinstance(b, ast.Assign) and len(a.targets) == 1 and len(b.targets) == 1):
+        return False
+    ta, tb = a.targets[0], b.targets[0]
+    if not (isinstance(ta, ast.Name) and isinstance(tb, ast.Name)) or ta.id == tb.id:
+        return False
+    # independent: b's value does not read a's target, and both values are call-free (no side-effect order change)
+    if any(isinstance(x, ast.Name) and x.id == ta.id for x in ast.walk(b.value)):
+        return False
+    if any(isinstance(x, (ast.Call, ast.Await, ast.NamedExpr)) for v in (a.value, b.value) for x in ast.walk(v)):
+        return False
+    return True
+
+
+def _nestable(n):
+    # if a: (if b: X)  with no else on either -> if a and b: X
+    return isinstance(n, ast.If) and not n.orelse and len(n.body) == 1 and isinstance(n.body[0], ast.If) and not n.body[0].orelse \
+        and not isinstance(n.test, ast.BoolOp) and not isinstance(n.body[0].test, ast.BoolOp)
+
+
+def _splittable(n):
+    # if a and b: X (no else) -> if a: if b: X
+    return isinstance(n, ast.If) and not n.orelse and isinstance(n.test, ast.BoolOp) and isinstance(n.test.op, ast.And) and len(n.test.values) == 2
 
 
 def apply(v):
@@ -194,8 +293,118 @@ def apply(v):
                                 lst[lst.index(n)] = newst
                     break
                 k += 1
+    elif kind == "cmpflip":
+        k = 0
+        flip = {ast.Lt: ast.Gt, ast.Gt: ast.Lt, ast.LtE: ast.GtE, ast.GtE: ast.LtE}
+        for n in ast.walk(fn):
+            if isinstance(n, ast.Compare) and len(n.ops) == 1 and isinstance(n.ops[0], (ast.Lt, ast.LtE, ast.Gt, ast.GtE)):
+                if k == arg:
+                    n.left, n.comparators[0] = n.comparators[0], n.left
+                    n.ops = [flip[type(n.ops[0])]()]
+                    break
+                k += 1
+    elif kind == "noteq":
+        k = 0
+        for n in ast.walk(fn):
+            if isinstance(n, ast.Compare) and len(n.ops) == 1 and isinstance(n.ops[0], ast.NotEq):
+                if k == arg:
+                    inner = ast.Compare(left=n.left, ops=[ast.Eq()], comparators=n.comparators)
+                    _replace_node(fn, n, ast.UnaryOp(op=ast.Not(), operand=inner))
+                    break
+                k += 1
+    elif kind == "nestif":
+        k = 0
+        for n in ast.walk(fn):
+            if _nestable(n) or _splittable(n):
+                if k == arg:
+                    if _nestable(n):
+                        inner = n.body[0]
+                        n.test = ast.BoolOp(op=ast.And(), values=[n.test, inner.test])
+                        n.body = inner.body
+                    else:
+                        a, b = n.test.values
+                        n.test = a
+                        n.body = [ast.If(test=b, body=n.body, orelse=[])]
+                    break
+                k += 1
+    elif kind == "guardcont":
+        k = 0
+        for n in ast.walk(fn):
+            if isinstance(n, (ast.For, ast.While)) and n.body and isinstance(n.body[-1], ast.If) and not n.body[-1].orelse and not n.orelse:
+                if k == arg:
+                    last = n.body[-1]
+                    guard = ast.If(test=ast.UnaryOp(op=ast.Not(), operand=last.test), body=[ast.Continue()], orelse=[])
+                    n.body[-1:] = [guard] + last.body
+                    break
+                k += 1
+    elif kind == "nameconst":
+        k = 0
+        for n in ast.walk(fn):
+            if _nameable(n):
+                if k == arg:
+                    cname = "CONST_%s" % (format(n.value, "X") if isinstance(n.value, int) else n.value.hex().upper())
+                    mod.body.insert(_after_imports(mod), ast.Assign(targets=[ast.Name(cname, ast.Store())], value=ast.Constant(n.value)))
+                    _replace_node(fn, n, ast.Name(cname, ast.Load()))
+                    break
+                k += 1
+    elif kind == "lenzero":
+        k = 0
+        for n in ast.walk(fn):
+            if isinstance(n, (ast.If, ast.While)) and _lenzero(n.test) is not None:
+                if k == arg:
+                    how, e = _lenzero(n.test)
+                    n.test = ast.UnaryOp(op=ast.Not(), operand=e) if how == "not" else e
+                    break
+                k += 1
+    elif kind == "ifexp":
+        k = 0
+        for n in ast.walk(fn):
+            if _ifexp_able(n):
+                if k == arg:
+                    new = ast.Assign(targets=[n.body[0].targets[0]], value=ast.IfExp(test=n.test, body=n.body[0].value, orelse=n.orelse[0].value))
+                    _replace_node(fn, n, new)
+                    break
+                k += 1
+    elif kind == "tupleassign":
+        k = 0
+        done = False
+        for p in ast.walk(fn):
+            for fld in ("body", "orelse", "finalbody"):
+                lst = getattr(p, fld, None)
+                if isinstance(lst, list) and not done:
+                    for i in range(len(lst) - 1):
+                        if _tuple_able(lst[i], lst[i + 1]):
+                            if k == arg:
+                                a, b = lst[i], lst[i + 1]
+                                new = ast.Assign(targets=[ast.Tuple(elts=[a.targets[0], b.targets[0]], ctx=ast.Store())], value=ast.Tuple(elts=[a.value, b.value], ctx=ast.Load()))
+                                lst[i:i + 2] = [new]
+                                done = True
+                                break
+                            k += 1
     ast.fix_missing_locations(mod)
     return ast.unparse(mod), fn.name
+
+
+def _after_imports(mod):
+    i = 0
+    for j, st in enumerate(mod.body):
+        if isinstance(st, (ast.Import, ast.ImportFrom)) or (j == 0 and isinstance(st, ast.Expr) and isinstance(st.value, ast.Constant)):
+            i = j + 1
+    return i
+
+
+def _replace_node(root, old, new):
+    for p in ast.walk(root):
+        for fld, val in ast.iter_fields(p):
+            if val is old:
+                setattr(p, fld, new)
+                return True
+            if isinstance(val, list):
+                for i, x in enumerate(val):
+                    if x is old:
+                        val[i] = new
+                        return True
+    return False
 
 
 
@@ -328,6 +537,8 @@ def apply_probe(v):
             k += 1
     ast.fix_missing_locations(mod)
     return ast.unparse(mod), fn.name
+
+
 
 
 def _probe_work(args):
